@@ -5,6 +5,8 @@ import (
 	"go/token"
 	"go/types"
 
+	"golang.org/x/tools/go/cfg"
+
 	"verif/checker/internal/an"
 	"verif/checker/internal/rep"
 )
@@ -281,7 +283,7 @@ func c07Strictness(c *rep.Ctx) {
 		}
 		cmps, und := f.ExprCmps(roleLatest, roleNo, 0)
 		ok := len(cmps) == 1 && len(und) == 0 && cmps[0].Op == token.LSS
-		var pos token.Pos
+		pos := f.Pos()
 		if len(cmps) > 0 {
 			pos = cmps[0].Expr.Pos()
 			// the comparison is what the function returns
@@ -315,33 +317,20 @@ func c07Strictness(c *rep.Ctx) {
 			}
 			return containsCallTo(info, e, "chain.(*ChainDB).getBestBlockNo")
 		}
+		// the number of element 0 (the tip) of the parameter slice: a number getter (or the header's number
+		// field) applied to newBlocks[0]; a once-defined local holding the element or the number is resolved
+		param := f.ParamObj(0)
+		isTip := func(e ast.Expr) bool {
+			ix, isIx := ast.Unparen(c07GapResolve(g, e)).(*ast.IndexExpr)
+			return isIx && param != nil && g.SingleDefOrParam(param) && an.ObjOf(info, ix.X) == param && c07GapConstIs(info, ix.Index, "0")
+		}
 		roleNew := func(e ast.Expr) bool {
-			{
-				rhs := e
-				if o := an.ObjOf(info, e); o != nil {
-					if r2, _ := g.SingleDef(o); r2 != nil {
-						rhs = r2
-					}
-				}
-				{
-					// number of element 0 (the tip) of the parameter slice
-					ix := false
-					ast.Inspect(rhs, func(n ast.Node) bool {
-						if x, isIx := n.(*ast.IndexExpr); isIx && an.ObjOf(info, x.X) == f.ParamObj(0) {
-							if tv, has := info.Types[x.Index]; has && tv.Value != nil && tv.Value.ExactString() == "0" {
-								ix = true
-							}
-						}
-						return true
-					})
-					return ix
-				}
-			}
-			return false
+			root, isNo := c07NumberOf(g, e)
+			return isNo && isTip(root)
 		}
 		cmps, und := g.OrdCmps(roleOld, roleNew, 0)
 		ok := len(cmps) == 1 && len(und) == 0
-		var pos token.Pos
+		pos := f.Pos()
 		if ok {
 			pos = cmps[0].Expr.Pos()
 			nilRets := g.NilReturns()
@@ -393,12 +382,112 @@ func c07Strictness(c *rep.Ctx) {
 	}
 }
 
+// c07NumberOf: e (once-defined locals resolved) is the block number of some block expression, spelled as a
+// number getter at the end of a method chain (b.BlockNo(), b.GetHeader().GetBlockNo()) or as the header's number
+// field (b.Header.BlockNo, b.GetHeader().BlockNo); returns the expression the chain starts at.
+func c07NumberOf(g *an.Graph, e ast.Expr) (ast.Expr, bool) {
+	info := g.Fn.Info()
+	e = ast.Unparen(c07GapResolve(g, e))
+	switch x := e.(type) {
+	case *ast.CallExpr:
+		if !c07GapNoGetters[an.CalleeName(info, x)] {
+			return nil, false
+		}
+	case *ast.SelectorExpr:
+		fv := an.FieldOf(info, x)
+		if fv == nil || fv.Name() != "BlockNo" || fv.Pkg() == nil || fv.Pkg().Path() != an.Module+"/types" {
+			return nil, false
+		}
+	default:
+		return nil, false
+	}
+	// down the chain of method calls and field selections to the block the number is read from
+	for {
+		e = ast.Unparen(e)
+		if call, isCall := e.(*ast.CallExpr); isCall {
+			sel, isSel := ast.Unparen(call.Fun).(*ast.SelectorExpr)
+			if !isSel || info.Selections[sel] == nil {
+				return nil, false
+			}
+			e = sel.X
+			continue
+		}
+		if sel, isSel := e.(*ast.SelectorExpr); isSel {
+			// a field of the block / header structures themselves (b.Header, h.BlockNo), not of the struct that holds the block
+			if fv := an.FieldOf(info, sel); fv != nil && fv.Pkg() != nil && fv.Pkg().Path() == an.Module+"/types" {
+				e = sel.X
+				continue
+			}
+		}
+		return e, true
+	}
+}
+
 func c02IsDbWriterOrFlush(fn *types.Func) bool {
 	switch an.FuncName(fn) {
 	case "github.com/aergoio/aergo-lib/db.(Transaction).Set", "github.com/aergoio/aergo-lib/db.(Bulk).Set", "github.com/aergoio/aergo-lib/db.(Bulk).Flush", "github.com/aergoio/aergo-lib/db.(Transaction).Commit":
 		return true
 	}
 	return false
+}
+
+// c07EveryIteration: the range loop runs over all its elements and every iteration passes the vertex must: the
+// loop header cannot be reached again from the start of the body without passing must, and the body is left
+// only through the header (no break / return / goto out of it; a panic ends everything).
+func c07EveryIteration(g *an.Graph, loop *ast.RangeStmt, must *an.Node) bool {
+	if must == nil {
+		return false
+	}
+	// go/cfg gives a range loop an empty header block (two-way branch: next element / done)
+	var head, enter *an.Node
+	for _, n := range g.Nodes {
+		if n.Kind == an.KHead && n.Block != nil && n.Block.Kind == cfg.KindRangeLoop && n.Block.Stmt == ast.Stmt(loop) {
+			head = n
+		}
+	}
+	if head == nil {
+		return false
+	}
+	for _, s := range head.Succs {
+		if s.Kind == an.KTrue && s.Cond == head {
+			enter = s
+		}
+	}
+	if enter == nil {
+		return false
+	}
+	if g.Reach([]*an.Node{enter}, an.SetOf(must))[head] {
+		return false
+	}
+	inBody := map[ast.Node]bool{}
+	ast.Inspect(loop.Body, func(n ast.Node) bool {
+		if n != nil {
+			inBody[n] = true
+		}
+		return true
+	})
+	for n := range g.Reach([]*an.Node{enter}, an.SetOf(head)) {
+		switch {
+		case n == g.Panic || n == enter:
+		case n == g.Exit:
+			return false
+		case n.Ast != nil:
+			if !inBody[n.Ast] {
+				return false
+			}
+		case n.Block == nil:
+			return false
+		case n.Block.Stmt == ast.Stmt(loop):
+			if n.Block.Kind != cfg.KindRangeBody {
+				return false
+			}
+		default:
+			if n.Block.Stmt == nil || !inBody[n.Block.Stmt] {
+				return false
+			}
+		}
+	}
+	return true
 }
 
 func c07Abandoned(c *rep.Ctx) {
@@ -420,31 +509,36 @@ func c07Abandoned(c *rep.Ctx) {
 		}
 		return true
 	})
-	// fill: range reorg.oldBlocks { range block txs { oldTxs[id] = tx } }
+	// fill: range reorg.oldBlocks { range block txs { oldTxs[id] = tx } } -- every iteration of both loops
+	// reaches the store and neither loop is left early (decided on the control-flow graph: other statements in
+	// the loop bodies, e.g. a counter or a log line, do not matter)
 	fillOK := false
 	for _, rs := range ranges {
 		if an.FieldOf(info, rs.X) != oldBlocks || oldBlocks == nil {
 			continue
 		}
-		ast.Inspect(rs.Body, func(n ast.Node) bool {
+		an.InspectShallow(rs.Body, func(n ast.Node) bool {
 			inner, ok := n.(*ast.RangeStmt)
-			if !ok || !containsCallTo(info, inner.X, "types.(*BlockBody).GetTxs") {
+			if !ok || !containsCallTo(info, c07GapResolve(g, inner.X), "types.(*BlockBody).GetTxs") {
 				return true
 			}
-			for _, st := range inner.Body.List {
-				as, ok := st.(*ast.AssignStmt)
-				if !ok || len(as.Lhs) != 1 {
-					continue
-				}
-				ix, ok := as.Lhs[0].(*ast.IndexExpr)
-				if !ok {
-					continue
-				}
-				if an.ObjOf(info, as.Rhs[0]) == an.ObjOf(info, inner.Value) && an.ObjOf(info, inner.Value) != nil && mentions(info, ix.Index, an.ObjOf(info, inner.Value)) {
-					oldTxs = an.ObjOf(info, ix.X)
-					fillOK = len(inner.Body.List) == 1
-				}
+			tx := an.ObjOf(info, inner.Value)
+			if inner.Value == nil || tx == nil {
+				return true
 			}
+			an.InspectShallow(inner.Body, func(m ast.Node) bool {
+				as, ok := m.(*ast.AssignStmt)
+				if !ok || len(as.Lhs) != 1 || len(as.Rhs) != 1 {
+					return true
+				}
+				ix, ok := ast.Unparen(as.Lhs[0]).(*ast.IndexExpr)
+				if !ok || an.ObjOf(info, as.Rhs[0]) != tx || !mentions(info, ix.Index, tx) || an.ObjOf(info, ix.X) == nil {
+					return true
+				}
+				oldTxs = an.ObjOf(info, ix.X)
+				fillOK = c07EveryIteration(g, inner, g.NodeOf(as)) && c07EveryIteration(g, rs, g.NodeOf(inner.X))
+				return true
+			})
 			return true
 		})
 	}
@@ -567,10 +661,15 @@ func c07Gather(c *rep.Ctx) {
 	info := f.Info()
 	brStart := c.Prog.LookupField("chain", "reorganizer", "brStartBlock")
 	// the fork point is set only where the branch block equals the main-chain block of the same height
-	var eq an.Set
+	// (which two blocks are compared is decided exactly by gather-walk|fork-test-operands in c07_gap.go; here the
+	// test is only located: both operands are block hashes, a once-defined local holding one is resolved)
+	isHash := func(e ast.Expr) bool {
+		return c07GapGetterOn(g, e, c07GapHashGetters, func(ast.Expr) bool { return true })
+	}
+	eq := an.Set{}
 	for _, s := range g.CallsTo("bytes.Equal") {
-		if len(s.Call.Args) == 2 && containsCallTo(info, s.Call.Args[0], "types.(*Block).BlockHash") && containsCallTo(info, s.Call.Args[1], "types.(*Block).BlockHash") {
-			eq = g.BoolEdges(s, true)
+		if len(s.Call.Args) == 2 && isHash(s.Call.Args[0]) && isHash(s.Call.Args[1]) {
+			eq = eq.Union(g.BoolEdges(s, true))
 		}
 	}
 	n := 0
